@@ -2262,6 +2262,7 @@ pub(crate) trait StylesheetParser<'a>: BaseParser + Sized {
 
         let mut positional = Vec::new();
         let mut named = BTreeMap::new();
+        let mut named_order = Vec::new();
 
         let mut rest: Option<AstExpr> = None;
         let mut keyword_rest: Option<AstExpr> = None;
@@ -2281,6 +2282,7 @@ pub(crate) trait StylesheetParser<'a>: BaseParser + Sized {
                     return Err(("Duplicate argument.", name.span).into());
                 }
 
+                named_order.push(name.node);
                 named.insert(
                     name.node,
                     self.parse_expression_until_comma(!for_mixin)?.node,
@@ -2331,6 +2333,7 @@ pub(crate) trait StylesheetParser<'a>: BaseParser + Sized {
         Ok(ArgumentInvocation {
             positional,
             named,
+            named_order,
             rest,
             keyword_rest,
             span: self.toks_mut().span_from(start),
